@@ -55,6 +55,9 @@ def i_pt_rmul(C, k, v):
     return _out(Point.__rmul__(pt, k))
 
 
+# too slow inside Coq (256-bit curve arithmetic): not part of the extraction self-check
+VM_SKIP = {"s_rmul", "s_add_int", "s_even_point", "s_sqrt", "s_parse_sec", "s_parse_xonly", "s_parse", "pt_rmul"}
+
 IMPL = {
     "fe_new": lambda C, a: FE(a, C[0]).num,
     "fe_add": lambda C, a, b: (FE(a, C[0]) + FE(b, C[0])).num,
